@@ -11,6 +11,7 @@ import (
 	"context"
 	"fmt"
 	"math/rand/v2"
+	"os"
 	"sort"
 	"strconv"
 	"strings"
@@ -63,10 +64,13 @@ type vExtCfg struct {
 }
 
 type vCfg struct {
-	conns  []vConnCfg
-	pipes  []vPipeCfg
-	exts   []vExtCfg // in the order of service Config.Extensions
-	shared int       // id of the receiver built on sharedcomponent, 0 = none
+	conns      []vConnCfg
+	pipes      []vPipeCfg
+	exts       []vExtCfg // in the order of service Config.Extensions
+	shared     int       // id of the receiver built on sharedcomponent, 0 = none
+	sharedExp  int       // id of the exporter built on sharedcomponent, 0 = none
+	sharedConn int       // id of the connector built on sharedcomponent, 0 = none
+	noFail     bool      // corpus witnesses: no failure injection
 }
 
 func vID(n int) component.ID { return component.MustNewID("k" + strconv.Itoa(n)) }
@@ -88,17 +92,19 @@ type vEv struct {
 }
 
 type vWorld struct {
-	creates   map[string]int    // receivers r<id>:<sig>, exporters e<id>:<sig>, connectors c<id>:<es><rs>
-	procs     []string          // processor labels p<id>@<sig>.<name>, one per created instance
-	procTok   map[int]string    // unique processor id -> pipeline token "<sig>.<name>" (filled by the generator)
-	extDeps   map[int][]int     // extension id -> dependencies
-	exts      []string          // created extension labels x<id>
-	sharedID  int               // receiver id built on sharedcomponent (0 = none)
-	sharedMap *sharedcomponent.Map[int, *vInner]
-	inners    []string // created inner labels s<id>
-	log       []vEv
-	failStart map[string]bool
-	failStop  map[string]bool
+	creates      map[string]int // receivers r<id>:<sig>, exporters e<id>:<sig>, connectors c<id>:<es><rs>
+	procs        []string       // processor labels p<id>@<sig>.<name>, one per created instance
+	procTok      map[int]string // unique processor id -> pipeline token "<sig>.<name>" (filled by the generator)
+	extDeps      map[int][]int  // extension id -> dependencies
+	exts         []string       // created extension labels x<id>
+	sharedID     int            // receiver id built on sharedcomponent (0 = none)
+	sharedExpID  int            // exporter id built on sharedcomponent (0 = none); inner label u<id>
+	sharedConnID int            // connector id built on sharedcomponent (0 = none); inner label w<id>
+	sharedMap    *sharedcomponent.Map[int, *vInner]
+	inners       []string // created inner labels s<id>
+	log          []vEv
+	failStart    map[string]bool
+	failStop     map[string]bool
 }
 
 func newVWorld() *vWorld {
@@ -201,6 +207,35 @@ func (n *vOuter) Shutdown(ctx context.Context) error {
 	return n.w.done(i, n.shared.Shutdown(ctx))
 }
 
+func (n *vOuter) Capabilities() consumer.Capabilities                      { return consumer.Capabilities{} }
+func (n *vOuter) ConsumeTraces(context.Context, ptrace.Traces) error       { return nil }
+func (n *vOuter) ConsumeMetrics(context.Context, pmetric.Metrics) error    { return nil }
+func (n *vOuter) ConsumeLogs(context.Context, plog.Logs) error             { return nil }
+func (n *vOuter) ConsumeProfiles(context.Context, pprofile.Profiles) error { return nil }
+
+// vAll: what exporter and connector factories hand out (a plain vNode or a shared vOuter).
+type vAll interface {
+	component.Component
+	consumer.Traces
+	consumer.Metrics
+	consumer.Logs
+	xconsumer.Profiles
+}
+
+// sharedOuter: an instance of a component built on sharedcomponent; kind 1 = exporter (inner u<id>), 2 = connector (inner w<id>).
+func (w *vWorld) sharedOuter(kind, num int, key string) vAll {
+	prefix := map[int]string{1: "u", 2: "w"}[kind]
+	sh, err := w.sharedMap.LoadOrStore(kind*1000+num, func() (*vInner, error) {
+		in := &vInner{w: w, label: fmt.Sprintf("%s%d", prefix, num)}
+		w.inners = append(w.inners, in.label)
+		return in, nil
+	})
+	if err != nil {
+		panic(err)
+	}
+	return &vOuter{w: w, label: key, shared: sh}
+}
+
 func vDefaultCfg() component.Config { return &struct{}{} }
 
 func (w *vWorld) mkRecv(id component.ID, sig int) (component.Component, error) {
@@ -222,9 +257,12 @@ func (w *vWorld) mkRecv(id component.ID, sig int) (component.Component, error) {
 	return &vNode{w: w, kind: 'r', label: key}, nil
 }
 
-func (w *vWorld) mkExp(id component.ID, sig int) *vNode {
+func (w *vWorld) mkExp(id component.ID, sig int) vAll {
 	key := fmt.Sprintf("e%d:%d", vIDNum(id), sig)
 	w.creates[key]++
+	if vIDNum(id) == w.sharedExpID {
+		return w.sharedOuter(1, vIDNum(id), key)
+	}
 	return &vNode{w: w, kind: 'e', label: key}
 }
 
@@ -239,9 +277,12 @@ func (w *vWorld) mkProc(id component.ID) *vNode {
 	return n
 }
 
-func (w *vWorld) mkConn(id component.ID, es, rs int) *vNode {
+func (w *vWorld) mkConn(id component.ID, es, rs int) vAll {
 	key := fmt.Sprintf("c%d:%d%d", vIDNum(id), es, rs)
 	w.creates[key]++
+	if vIDNum(id) == w.sharedConnID {
+		return w.sharedOuter(2, vIDNum(id), key)
+	}
 	return &vNode{w: w, kind: 'c', label: key}
 }
 
@@ -414,9 +455,11 @@ func vSettings(w *vWorld, cfg vCfg) (Settings, Config) {
 		w.extDeps[e.id] = e.deps
 	}
 	w.sharedID = cfg.shared
+	w.sharedExpID = cfg.sharedExp
+	w.sharedConnID = cfg.sharedConn
 	set := Settings{
-		BuildInfo:     component.NewDefaultBuildInfo(),
-		CollectorConf: confmap.New(),
+		BuildInfo:        component.NewDefaultBuildInfo(),
+		CollectorConf:    confmap.New(),
 		ReceiversConfigs: rc, ReceiversFactories: rf,
 		ProcessorsConfigs: pc, ProcessorsFactories: pf,
 		ExportersConfigs: ec, ExportersFactories: ef,
@@ -488,6 +531,9 @@ func vCorpus() []vCfg {
 		{conns: []vConnCfg{{3, vFull()}}, pipes: []vPipeCfg{{2, 0, []int{1, 1, 2}, []int{3}, []int{3, 3, 1, 1}}, {2, 1, []int{3, 2, 3}, []int{1}, []int{2}}}},
 		// 9 partially supported: traces->metrics supported, traces->logs not, both used (allowed: "used correctly elsewhere")
 		{conns: []vConnCfg{{5, t2m}}, pipes: []vPipeCfg{{0, 0, []int{1}, nil, []int{5}}, {1, 0, []int{5}, nil, []int{1}}, {2, 0, []int{5, 1}, nil, []int{1}}}},
+		// 10 Props/C10.lean exConnCfg: connector 5 takes traces/0 into metrics/0 and logs/0 (two instances); with
+		// VERIF_C10_SHARED_CONN=1 the two instances share one component (witness of C10_shared_connector_full_fails)
+		{conns: []vConnCfg{{5, vFull()}}, pipes: []vPipeCfg{{0, 0, []int{1}, nil, []int{5}}, {1, 0, []int{5}, []int{1}, []int{1}}, {2, 0, []int{5}, []int{2}, []int{2}}}, sharedConn: 5, noFail: true},
 	}
 }
 
@@ -625,9 +671,11 @@ func vHas(l []int, x int) bool {
 }
 
 // vGenExts: 0-4 extensions with distinct ids from 1..4 and a dependency list each.
-//   85%: dependencies only on smaller ids of the list (acyclic)
-//   10%: arbitrary dependencies among the listed ids, no self dependency (may form a cycle)
-//    5%: acyclic as above plus one dependency on an id that is not in the list
+//
+//	85%: dependencies only on smaller ids of the list (acyclic)
+//	10%: arbitrary dependencies among the listed ids, no self dependency (may form a cycle)
+//	 5%: acyclic as above plus one dependency on an id that is not in the list
+//
 // The order in service Config.Extensions is a random shuffle.
 func vGenExts(rnd *rand.Rand) []vExtCfg {
 	ids := vPick(rnd, 1, 4, rnd.IntN(5), false)
@@ -754,5 +802,86 @@ func vEmitCfg(out *vOut, cfg vCfg) {
 	}
 	if cfg.shared != 0 {
 		out.Linef("op shared %d", cfg.shared)
+	}
+	if cfg.sharedExp != 0 {
+		out.Linef("op sharedexp %d", cfg.sharedExp)
+	}
+	if cfg.sharedConn != 0 {
+		out.Linef("op sharedconn %d", cfg.sharedConn)
+	}
+}
+
+// vGenSharedMore: with probability 0.3 one plain exporter id used in the configuration is built on sharedcomponent
+// (and added to one or two other pipelines, preferably of another signal); with probability 0.25 one used connector id.
+//
+// Switches (set by lib/props/c10.py): VERIF_C10_SHARED_EXP=1 enables the shared exporter stream (it needs the repaired
+// ShutdownAll: exporters last), VERIF_C10_SHARED_CONN=1 the shared connector stream (no order chosen by the graph alone can be
+// right for a connector whose instances share one component; recorded observation, off by default). The random draws are made
+// either way so that the rest of a case does not depend on the switches.
+func vGenSharedMore(rnd *rand.Rand, cfg *vCfg) {
+	expOn, connOn := os.Getenv("VERIF_C10_SHARED_EXP") == "1", os.Getenv("VERIF_C10_SHARED_CONN") == "1"
+	defer func() {
+		if !expOn {
+			cfg.sharedExp = 0
+		}
+		if !connOn {
+			cfg.sharedConn = 0
+		}
+	}()
+	isConn := map[int]bool{}
+	for _, c := range cfg.conns {
+		isConn[c.id] = true
+	}
+	if rnd.IntN(10) < 3 {
+		var cand []int
+		for _, p := range cfg.pipes {
+			for _, x := range p.exps {
+				if !isConn[x] && !vHas(cand, x) {
+					cand = append(cand, x)
+				}
+			}
+		}
+		if len(cand) > 0 {
+			sort.Ints(cand)
+			cfg.sharedExp = cand[rnd.IntN(len(cand))]
+			for n := 1 + rnd.IntN(2); n > 0; n-- {
+				var has [4]bool
+				for _, p := range cfg.pipes {
+					has[p.sig] = has[p.sig] || vHas(p.exps, cfg.sharedExp)
+				}
+				var pick []int
+				for i, p := range cfg.pipes {
+					if !has[p.sig] {
+						pick = append(pick, i)
+					}
+				}
+				if len(pick) == 0 || rnd.IntN(4) == 0 {
+					pick = pick[:0]
+					for i := range cfg.pipes {
+						pick = append(pick, i)
+					}
+				}
+				p := &cfg.pipes[pick[rnd.IntN(len(pick))]]
+				if expOn && !vHas(p.exps, cfg.sharedExp) {
+					p.exps = append(p.exps, cfg.sharedExp)
+				}
+			}
+		}
+	}
+	if rnd.IntN(4) == 0 {
+		var cand []int
+		for _, p := range cfg.pipes {
+			for _, l := range [][]int{p.recv, p.exps} {
+				for _, x := range l {
+					if isConn[x] && !vHas(cand, x) {
+						cand = append(cand, x)
+					}
+				}
+			}
+		}
+		if len(cand) > 0 {
+			sort.Ints(cand)
+			cfg.sharedConn = cand[rnd.IntN(len(cand))]
+		}
 	}
 }
